@@ -68,6 +68,7 @@ type pnReader struct {
 	wide   bool // read every watched account, not only those the momentum touches
 	reads  int
 	panics []string
+	probe  *pnProbe // the reader is a probe of the listener table as well (s_poolnode_listeners.go)
 }
 
 func (r *pnReader) read(dm *nom.DetailedMomentum) {
@@ -124,11 +125,13 @@ func (r *pnReader) read(dm *nom.DetailedMomentum) {
 }
 
 func (r *pnReader) InsertMomentum(dm *nom.DetailedMomentum) {
+	r.probe.InsertMomentum(dm)
 	if r.onIns {
 		r.read(dm)
 	}
 }
 func (r *pnReader) DeleteMomentum(dm *nom.DetailedMomentum) {
+	r.probe.DeleteMomentum(dm)
 	if r.onDel {
 		r.read(dm)
 	}
@@ -153,6 +156,7 @@ type pnNode struct {
 	bridge  protocol.ChainBridge
 	readers []*pnReader
 	stop    func()
+	ls      *pnListeners // the harness's listeners on the node's momentum event manager
 }
 
 // newPnFollower builds a follower node whose first listener (before the account pool) and last listener (after it) are readers.
@@ -179,13 +183,18 @@ func newPnFollower(c *Ctx, name string, mode int) (*pnNode, error) {
 			before.onIns, before.onDel, after.onIns, after.onDel = c.R.Intn(2) == 0, c.R.Intn(2) == 0, c.R.Intn(2) == 0, true
 			before.wide, after.wide = c.R.Intn(2) == 0, c.R.Intn(2) == 0
 		}
+		n.ls = newPnListeners(c, ch)
+		before.probe = n.ls.readerProbe("reader-before-pool")
 		ch.Register(before) // Init registers the account pool: this listener is told first
 		cons := consensus.NewConsensus(db.NewMemDB(), ch, true)
 		common.DealWithErr(ch.Init())
 		common.DealWithErr(cons.Init())
 		common.DealWithErr(ch.Start())
 		common.DealWithErr(cons.Start())
+		after.probe = n.ls.readerProbe("reader-after-pool")
 		ch.Register(after)
+		n.ls.fixed = 2
+		n.ls.verify(name, "creation", func(string, ...interface{}) {}) // reads the chain: the events are counted from here
 		sup := vm.NewSupervisor(ch, cons)
 		n.ch = ch
 		n.bridge = protocol.NewChainBridge(ch, cons, verifier.NewVerifier(ch, cons), sup)
@@ -247,9 +256,19 @@ func (r *pnRun) learn(blocks ...*nom.AccountBlock) {
 func (r *pnRun) check(n *pnNode, what string) bool {
 	c := r.c
 	ok := true
+	// the failing input includes what happened to the node's listener table
+	fail := func(format string, a ...interface{}) {
+		if n.ls != nil && len(n.ls.ops) > 0 {
+			format += " [register / unregister operations on this node's momentum event manager before: " + strings.ReplaceAll(n.ls.opsText(), "%", "%%") + "]"
+		}
+		r.fail(format, a...)
+	}
+	if !n.ls.verify(n.name, what, r.fail) {
+		ok = false
+	}
 	for _, rd := range n.readers {
 		if len(rd.panics) > 0 {
-			r.fail("%s after %s: a reader inside a momentum notification (%s) panicked: %s", n.name, what, rd.where, rd.panics[0])
+			fail("%s after %s: a reader inside a momentum notification (%s) panicked: %s", n.name, what, rd.where, rd.panics[0])
 			rd.panics = nil
 			ok = false
 		}
@@ -265,13 +284,13 @@ func (r *pnRun) check(n *pnNode, what string) bool {
 			var ids []string
 			for i, b := range unc {
 				if b == nil {
-					r.fail("%s after %s: uncommitted block %d of %s is nil", n.name, what, i, addrName(a))
+					fail("%s after %s: uncommitted block %d of %s is nil", n.name, what, i, addrName(a))
 					ok = false
 					return
 				}
 				ids = append(ids, pnId(b.Identifier()))
 				if own := (types.HashHeight{Hash: b.PreviousHash, Height: b.Height - 1}); own != prev {
-					r.fail("%s after %s: the uncommitted blocks of %s are [%s]; block %s has previous %s, but the chain so far ends in %s (last confirmed block of the account in the ledger: %s)",
+					fail("%s after %s: the uncommitted blocks of %s are [%s]; block %s has previous %s, but the chain so far ends in %s (last confirmed block of the account in the ledger: %s)",
 						n.name, what, addrName(a), strings.Join(ids, " "), pnId(b.Identifier()), pnId(own), pnId(prev), pnId(confirmed))
 					ok = false
 					return
@@ -285,7 +304,7 @@ func (r *pnRun) check(n *pnNode, what string) bool {
 			// the pool's frontier is the head of that chain, and shows the ledger's block at the confirmed height
 			fs := n.ch.GetFrontierAccountStore(a)
 			if got := fs.Identifier(); got != prev {
-				r.fail("%s after %s: the pool's frontier of %s is %s; the account's last confirmed block in the ledger is %s and the pool lists %d uncommitted block(s) [%s] - the frontier is not the ledger frontier extended by the pooled blocks (a block of a momentum that is not on the chain is kept as stable)",
+				fail("%s after %s: the pool's frontier of %s is %s; the account's last confirmed block in the ledger is %s and the pool lists %d uncommitted block(s) [%s] - the frontier is not the ledger frontier extended by the pooled blocks (a block of a momentum that is not on the chain is kept as stable)",
 					n.name, what, addrName(a), pnId(got), pnId(confirmed), len(unc), strings.Join(ids, " "))
 				ok = false
 				return
@@ -293,7 +312,7 @@ func (r *pnRun) check(n *pnNode, what string) bool {
 			if confirmed.Height > 0 {
 				got, err := fs.ByHeight(confirmed.Height)
 				if err != nil || got == nil || got.Identifier() != confirmed {
-					r.fail("%s after %s: the pool's frontier store of %s shows %v at the confirmed height %d, the ledger holds %s", n.name, what, addrName(a), got, confirmed.Height, pnId(confirmed))
+					fail("%s after %s: the pool's frontier store of %s shows %v at the confirmed height %d, the ledger holds %s", n.name, what, addrName(a), got, confirmed.Height, pnId(confirmed))
 					ok = false
 					return
 				}
@@ -302,13 +321,13 @@ func (r *pnRun) check(n *pnNode, what string) bool {
 			for _, id := range sortedIds(r.known[a]) {
 				has := n.ch.GetPatch(a, id) != nil
 				if has && !pooled[id] {
-					r.fail("%s after %s: GetPatch(%s, %s) answers a patch, but the block is not on the account's uncommitted chain [%s] (last confirmed %s): a block that was displaced / rolled back / never accepted is still held by the pool - sync and gossip take a block for which GetPatch answers as already applied",
+					fail("%s after %s: GetPatch(%s, %s) answers a patch, but the block is not on the account's uncommitted chain [%s] (last confirmed %s): a block that was displaced / rolled back / never accepted is still held by the pool - sync and gossip take a block for which GetPatch answers as already applied",
 						n.name, what, addrName(a), pnId(id), strings.Join(ids, " "), pnId(confirmed))
 					ok = false
 					return
 				}
 				if !has && pooled[id] {
-					r.fail("%s after %s: the pool lists %s/%s as uncommitted (chain [%s] on the last confirmed block %s) but holds no patch for it: the block was not inserted into this pool state - it is a leftover of a ledger state that no longer exists (a deleted momentum)",
+					fail("%s after %s: the pool lists %s/%s as uncommitted (chain [%s] on the last confirmed block %s) but holds no patch for it: the block was not inserted into this pool state - it is a leftover of a ledger state that no longer exists (a deleted momentum)",
 						n.name, what, addrName(a), pnId(id), strings.Join(ids, " "), pnId(confirmed))
 					ok = false
 					return
@@ -316,7 +335,7 @@ func (r *pnRun) check(n *pnNode, what string) bool {
 			}
 		}
 	}); p != "" {
-		r.fail("%s after %s: reading the pool panics: %s", n.name, what, firstLine(p))
+		fail("%s after %s: reading the pool panics: %s", n.name, what, firstLine(p))
 		ok = false
 	}
 	c.Hit("pn-check")
@@ -335,6 +354,7 @@ func (r *pnRun) deliver(n *pnNode, what string, path []types.Hash, from, to int)
 	before := n.height()
 	var idx int
 	var err error
+	n.ls.churn(n.name, r.fail)
 	p := safely(func() { idx, err = n.bridge.InsertChain(wire(batch)) })
 	last := batch[len(batch)-1].Momentum
 	op := fmt.Sprintf("%s (InsertChain of %d momentum(s) %d..%d, node at height %d)", what, len(batch), batch[0].Momentum.Height, last.Height, before)
@@ -369,6 +389,9 @@ func (r *pnRun) gossip(n *pnNode, what string, b *nom.AccountBlock) error {
 	cp, derr := nom.DeserializeAccountBlock(mustSerialize(b))
 	if derr != nil {
 		return derr
+	}
+	if r.c.R.Intn(3) == 0 {
+		n.ls.churn(n.name, r.fail)
 	}
 	if p := safely(func() { err = n.bridge.AddAccountBlocks([]*nom.AccountBlock{cp}) }); p != "" {
 		r.fail("%s: %s (AddAccountBlocks of %s/%s) panics: %s", n.name, what, addrName(b.Address), pnId(b.Identifier()), firstLine(p))
@@ -408,11 +431,14 @@ func poolNodeHistory(c *Ctx, id int) {
 	r := &pnRun{c: c, id: id, hist: &history{byHash: map[types.Hash]*histNode{}}, known: map[types.Address]map[types.HashHeight]bool{}}
 	aBridge := protocol.NewChainBridge(a.Chain(), a.Z.Consensus(), verifier.NewVerifier(a.Chain(), a.Z.Consensus()), a.Sup)
 	aReader := &pnReader{c: c, ch: a.Chain(), where: "after-pool", onIns: true, onDel: true, wide: id%2 == 1}
+	A := &pnNode{name: "producer", ch: a.Chain(), bridge: aBridge, readers: []*pnReader{aReader}, ls: newPnListeners(c, a.Chain())}
 	if c.Args["producer-reader"] != "off" {
+		aReader.probe = A.ls.readerProbe("reader-after-pool")
+		A.ls.fixed = 1
 		a.Chain().Register(aReader)
 		defer a.Chain().UnRegister(aReader)
 	}
-	A := &pnNode{name: "producer", ch: a.Chain(), bridge: aBridge, readers: []*pnReader{aReader}}
+	A.ls.verify("producer", "creation", func(string, ...interface{}) {})
 
 	// the path from genesis to the producer's frontier, recorded
 	pathNow := func() []types.Hash {
@@ -436,10 +462,14 @@ func poolNodeHistory(c *Ctx, id int) {
 	a.OnMomentum = func(dm *nom.DetailedMomentum) {
 		r.learn(dm.AccountBlocks...)
 		r.check(A, fmt.Sprintf("producing momentum %d", dm.Momentum.Height))
+		if c.R.Intn(3) == 0 {
+			A.ls.churn("producer", r.fail)
+		}
 	}
 	rollback := func(to types.HashHeight) bool {
 		from := a.Height()
 		var err error
+		A.ls.churn("producer", r.fail)
 		if p := safely(func() {
 			ins := a.Chain().AcquireInsert("zvh pool-node rollback")
 			defer ins.Unlock()
